@@ -26,6 +26,7 @@ import (
 	"sort"
 	"sync"
 	"testing"
+	"time"
 
 	"github.com/twmb/franz-go/pkg/kgo/internal/sticky"
 	"github.com/twmb/franz-go/pkg/kmsg"
@@ -173,6 +174,7 @@ func TestVerifC26(t *testing.T) {
 	if out == "" {
 		t.Skip("C26_SUMMARY not set")
 	}
+	t0 := time.Now()
 	thorough := os.Getenv("VERIF_TIER") == "thorough"
 	st := balenum.StickyTier(thorough)
 	blocks := balenum.StickyBlocks(st)
@@ -295,6 +297,7 @@ func TestVerifC26(t *testing.T) {
 		"bound":        fmt.Sprintf("members<=%d; full prior sweep: total partitions<=%d (<=%d at %d members); special-member sweep: <=%d; rack sweep (2 racks, all placements): <=%d; topics<=2 with 1..3 partitions; count-map insertion orders: %s", st.MaxMembers, st.FullTotal, st.FullTotalAtMax, st.MaxMembers, st.SpecialTotal, st.RacksTotal, map[int]string{0: "one per input, alternating", 1: "one", 2: "both for every input (alternating at 6 partitions)"}[st.Orders]),
 		"samples":      samples,
 		"findings":     findings,
+		"wall_s":       time.Since(t0).Seconds(),
 		"extra": map[string]int64{
 			"cases_where_stays_put_oracle_applied":  stays,
 			"cases_with_uneven_subscriptions":       uneven,
